@@ -70,15 +70,19 @@ fn strat(max_ops: usize, chain: bool, restart: bool) -> impl Strategy<Value = Ca
 }
 
 fn oracle(c: &Case, ctx: &mut Ctx) -> CaseResult {
-	let t0 = std::time::Instant::now();
 	let mut sim = c.spec.build(false);
-	dbg_line(&format!("TIMING build {} ms", t0.elapsed().as_millis()));
 	if let Err(e) = sim.c03_seed_graphs() {
 		return Err(Failure::new("harness-graph-seed", e));
 	}
 	let mut st = C03::new(&mut sim);
 	let mut tags: Vec<&'static str> = vec![];
-	let r = run(c, ctx, &mut sim, &mut st, &mut tags);
+	// a panic inside the library is a failure of the case (the runner records it); in replay mode the history is
+	// printed first
+	let caught = std::panic::catch_unwind(std::panic::AssertUnwindSafe(|| run(c, ctx, &mut sim, &mut st, &mut tags)));
+	let r = match &caught {
+		Ok(r) => r.clone(),
+		Err(_) => Err(Failure::new("panic", "")),
+	};
 	if ctx.replay && r.is_err() {
 		println!("==== ops ====");
 		for (i, (op, t)) in c.ops.iter().zip(tags.iter()).enumerate() {
@@ -91,11 +95,13 @@ fn oracle(c: &Case, ctx: &mut Ctx) -> CaseResult {
 		println!("restarts (step, snapshot step): {:?}; foreign: {:?}", st.restarts, st.co_dead);
 		println!("==== history ====\n{}", dump_history(&sim));
 	}
+	if let Err(p) = caught {
+		std::panic::resume_unwind(p);
+	}
 	r
 }
 
 fn run(c: &Case, ctx: &mut Ctx, sim: &mut Sim, st: &mut C03, tags: &mut Vec<&'static str>) -> CaseResult {
-	let t0 = std::time::Instant::now();
 	for op in c.ops.iter() {
 		let tag = st.apply(sim, &c.spec, op)?;
 		tags.push(tag);
@@ -106,7 +112,6 @@ fn run(c: &Case, ctx: &mut Ctx, sim: &mut Sim, st: &mut C03, tags: &mut Vec<&'st
 		}
 		st.step(sim)?;
 	}
-	dbg_line(&format!("TIMING ops {} ms n_ops {}", t0.elapsed().as_millis(), c.ops.len()));
 	let quiet = st.end_game(sim, &c.final_choices, 420)?;
 	st.finish(sim, quiet)?;
 
